@@ -1,9 +1,12 @@
-"""Registry of units (Kani harnesses, extracted Verus units, lemma files) per property."""
+"""Registry of units (Kani harnesses, extracted Verus units, lemma files) per property,
+and the manifest texts (MANIFEST.json is generated from here: python3 -m vk.manifest)."""
 
 PROPS = {}
 KANI_UNITS = []
 VERUS_UNITS = []
 LEMMA_UNITS = []
+MANIFEST_META = {"_hook_commits": ["aa70414"]}
+NOT_APPLICABLE = {}
 
 TB_COMMON = [
     "Verus 0.2026.09.13 + Z3", "Kani 0.68 + CBMC 6.11 + kissat/cadical",
@@ -18,9 +21,11 @@ def prop(pid, level="proof", explanation="", trusted_base=(), assumptions=()):
                       trusted_base=TB_COMMON + list(trusted_base), assumptions=list(assumptions))
 
 
-def kani(harness, props, tier="quick", kind="complete", bound="", fns=(), text="", timeout=600):
+def kani(harness, props, tier="quick", kind="complete", bound="", fns=(), text="", timeout=600, allow=()):
+    """allow: regexes of failed-check descriptions that are *clean failures the property permits*
+    (documented panics of a constructor on invalid input); they are not violations."""
     KANI_UNITS.append(dict(harness=harness, props=list(props), tier=tier, kind=kind, bound=bound,
-                           fns=list(fns), text=text, timeout=timeout))
+                           fns=list(fns), text=text, timeout=timeout, allow=list(allow)))
 
 
 def lemma(file, props, tier="quick", timeout=600):
@@ -31,68 +36,62 @@ def verus_unit(**kw):
     VERUS_UNITS.append(kw)
 
 
-# =====================================================================================
-# C01  ANS coder is a lossless stack
-# =====================================================================================
-prop("C01", explanation="pop(push(c,e),e) == c and inv preserved: per-step contract on the real "
-     "AnsCoder::encode_symbol/decode_symbol (Kani, complete at (u8,u16), every state/entry); width-parametric "
-     "Verus lemma lemma_pop_push + history induction; lift to all widths through the extracted-text "
-     "refinement obligations (owned by C06).")
-ENC = "stack.rs::<AnsCoder as Encode>::encode_symbol"
-DEC = "stack.rs::<AnsCoder as Decode>::decode_symbol"
-for p, tier in (("p8", "quick"), ("p3", "quick"), ("p1", "thorough"), ("p5", "thorough")):
-    kani(f"ans::u8_u16_{p}::rt_push_pop", ["C01"], tier=tier, fns=[ENC, DEC], timeout=900,
-         text="for all (bulk,state) with inv, all entries (cum,p) with 1<=p<2^P, cum+p<=2^P: decode(encode(c,e),e) == (e.sym, c)")
-    kani(f"ans::u8_u16_{p}::rt_pop_push", ["C04"], tier=tier, fns=[ENC, DEC], timeout=900,
-         text="for all inv states whose quantile lies in e: encode(decode(c,e),e) == c")
-    kani(f"ans::u8_u16_{p}::conf_encode", ["C06"], tier=tier, fns=[ENC], timeout=900,
-         text="encode step == spec_push (threshold state>>(sb-P) >= p, low word flushed, head (s/p)<<P + cum + s%p)")
-    kani(f"ans::u8_u16_{p}::conf_decode", ["C06"], tier=tier, fns=[DEC], timeout=900,
-         text="decode step == spec_pop (quantile = state mod 2^P, refill iff < 2^(sb-wb) and a word exists)")
-    kani(f"ans::u8_u16_{p}::encode_errors", ["C09"], tier=tier, fns=[ENC],
-         text="symbol outside support => Err(ImpossibleSymbol) and coder unchanged; k-th write refused => Err(Backend) and coder unchanged")
-    kani(f"ans::u8_u16_{p}::decode_total", ["C10"], tier=tier, fns=[DEC],
-         text="from ANY (bulk,state) (invariant or not), any entry incl. p == 2^P: decode is Ok, no overflow/panic, symbol from the model")
-    kani(f"ans::u8_u16_{p}::potential", ["C12"], tier=tier, fns=[ENC],
-         text="<= 1 word per symbol and Phi(after)*p*2^k <= Phi(before)*2^P*(2^k+1), Phi = max(state,2^(sb-wb))*2^(wb*|bulk|)")
-for m in ("u16_u32_p12", "u32_u64_p24", "u32_u64_p32", "u8_u32_p8"):
-    kani(f"ans::{m}::conf_decode", ["C06"], tier="quick" if m == "u32_u64_p24" else "thorough", fns=[DEC], timeout=900,
-         text="decode step == spec_pop at wide widths (division-free)")
-    kani(f"ans::{m}::decode_total", ["C10"], tier="quick" if m == "u32_u64_p24" else "thorough", fns=[DEC])
-
-prop("C04")
-prop("C06")
-prop("C09")
-prop("C10")
-prop("C12")
-
-# =====================================================================================
-# Manifest texts (kept next to the registry so that MANIFEST.json is regenerated, never hand-edited)
-# =====================================================================================
-MANIFEST_META = {"_hook_commits": []}
-NOT_APPLICABLE = {}
-
-
 def claim(pid, text, note, technique):
     MANIFEST_META[pid] = dict(text=text, note=note, technique=technique)
 
 
 K_NOTE = ("Kani/CBMC bit-precise on the compiled real crate; stub entropy model (one symbolic entry) and "
           "array-window backend stand for every model/backend satisfying the trait contracts (DESIGN §4); "
-          "division-bearing steps complete at (u8,u16) only")
+          "division-bearing steps are complete at (u8,u16) only; wider widths through the Verus units on extracted text")
 
-claim("C01", "Per-step contract decode(encode(c,e),e) == (sym,c) with invariant preservation, discharged for every "
-      "state/entry at (u8,u16) on the real code; history/width generalisation by lemma.", K_NOTE,
-      "function contracts (Kani) + Verus lemmas")
-claim("C04", "Per-step contract encode(decode(c,e),e) == c for every invariant state.", K_NOTE, "function contracts (Kani) + Verus lemmas")
-claim("C06", "Real encode/decode steps equal the published rANS step written as an independent spec function.", K_NOTE,
-      "refinement of real functions to a spec function (Kani miter, Verus on extracted text)")
-claim("C09", "Error paths of encode_symbol leave (bulk,state) untouched and report the documented error.", K_NOTE, "function contracts (Kani)")
-claim("C10", "decode_symbol is total from ANY state, any well-formed entry; symbol comes from the model.", K_NOTE, "function contracts (Kani)")
-claim("C12", "At most one word per symbol and the integer potential inequality per step.", K_NOTE + "; A-log: passing from the product inequality to the logarithmic statement is paper mathematics",
-      "function contracts (Kani) + Verus potential lemma")
-for _p in ("C02", "C03", "C05", "C07", "C08", "C11", "C13", "C14", "C15", "C16", "C17", "C18", "C19", "C20"):
-    NOT_APPLICABLE[_p] = "check under construction in this session (see DESIGN.md §6); not yet claimed"
+# =====================================================================================
+# ANS coder (src/stream/stack.rs)
+# =====================================================================================
+ENC = "stack.rs::<AnsCoder as Encode>::encode_symbol"
+DEC = "stack.rs::<AnsCoder as Decode>::decode_symbol"
+ST = "stack.rs::AnsCoder::"
+for p, tier in (("p8", "quick"), ("p3", "quick"), ("p1", "thorough"), ("p5", "thorough")):
+    kani(f"ans::u8_u16_{p}::rt_push_pop", ["C01"], tier=tier, fns=[ENC, DEC], timeout=1200,
+         text="for all (bulk,state) with inv, all entries (cum,p) with 1<=p<2^P, cum+p<=2^P: decode(encode(c,e),e) == (e.sym, c)")
+    kani(f"ans::u8_u16_{p}::rt_pop_push", ["C04"], tier=tier, fns=[ENC, DEC], timeout=1200,
+         text="for all inv states whose quantile lies in e: encode(decode(c,e),e) == c")
+    kani(f"ans::u8_u16_{p}::conf_encode", ["C06"], tier=tier, fns=[ENC], timeout=1200,
+         text="encode step == spec_push (threshold state>>(sb-P) >= p, low word flushed, head (s/p)<<P + cum + s%p)")
+    kani(f"ans::u8_u16_{p}::conf_decode", ["C06"], tier=tier, fns=[DEC], timeout=1200,
+         text="decode step == spec_pop (quantile = state mod 2^P, refill iff < 2^(sb-wb) and a word exists)")
+    kani(f"ans::u8_u16_{p}::encode_errors", ["C09"], tier=tier, fns=[ENC],
+         text="symbol outside support => Err(ImpossibleSymbol) and coder unchanged; k-th write refused => Err(Backend) and coder unchanged")
+    kani(f"ans::u8_u16_{p}::decode_total", ["C10", "C20"], tier=tier, fns=[DEC],
+         text="from ANY (bulk,state) (invariant or not), any entry incl. p == 2^P: decode is Ok, no overflow/panic, symbol from the model")
+    kani(f"ans::u8_u16_{p}::potential", ["C12"], tier=tier, fns=[ENC],
+         text="<= 1 word per symbol and Phi(after)*p*2^k <= Phi(before)*2^P*(2^k+1), Phi = max(state,2^(sb-wb))*2^(wb*|bulk|)")
+for m in ("u16_u32_p12", "u32_u64_p24", "u32_u64_p32", "u8_u32_p8"):
+    t = "quick" if m == "u32_u64_p24" else "thorough"
+    kani(f"ans::{m}::conf_decode", ["C06"], tier=t, fns=[DEC], timeout=1200,
+         text="decode step == spec_pop at wide widths (division-free)")
+    kani(f"ans::{m}::decode_total", ["C10", "C20"], tier=t, fns=[DEC])
+
+for w, tier in (("u8_u16", "quick"), ("u32_u64", "quick"), ("u8_u32", "thorough"), ("u16_u32", "thorough")):
+    kani(f"ans_io::{w}::export_import", ["C01", "C18", "C08"], tier=tier,
+         fns=[ST + "into_compressed", ST + "from_compressed", ST + "read_initial_state", ST + "num_words", ST + "num_bits", ST + "is_empty", ST + "iter_compressed", "lib.rs::bit_array_to_chunks_truncated", ST + "clone"],
+         text="into_compressed == bulk ++ LE chunks of state without leading zero words; num_words/num_bits/is_empty/iter_compressed agree; from_compressed inverts it")
+    kani(f"ans_io::{w}::import_any", ["C01"], tier=tier, fns=[ST + "from_compressed", ST + "read_initial_state"],
+         text="from_compressed(d) refused iff d ends in a zero word; else inv holds and into_compressed returns d")
+    kani(f"ans_io::{w}::binary_roundtrip", ["C04", "C18", "C08"], tier=tier,
+         fns=[ST + "from_binary", ST + "into_binary", ST + "get_binary", ST + "num_valid_bits", "stack.rs::CoderGuard<SEALED=true>::{new,drop}"],
+         text="for ANY words d (incl. trailing zero words, empty): into_binary(from_binary(d)) == d; num_valid_bits == wb*|d|; get_binary shows d and restores the coder")
+    kani(f"ans_io::{w}::binary_export_any", ["C04"], tier=tier, fns=[ST + "into_binary", ST + "from_binary"],
+         text="into_binary is Ok iff the payload is a whole number of words; then from_binary inverts it")
+    kani(f"ans_io::{w}::guard_compressed", ["C08"], tier=tier, fns=[ST + "get_compressed", "stack.rs::CoderGuard<SEALED=false>::{new,drop}"],
+         text="get_compressed view == what into_compressed would return; drop restores (bulk,state)")
+    kani(f"ans_io::{w}::pos_seek", ["C07"], tier=tier, fns=["stack.rs::<AnsCoder as Pos>::pos", "stack.rs::<AnsCoder as Seek>::seek"],
+         text="pos()==(|bulk|,state); seek((p,s)) truncates to p and installs s; p > |bulk| refused, coder unchanged")
+kani("ans_io::batch_encode_forms", ["C01"], fns=["stream/mod.rs::Encode::{encode_symbols,try_encode_symbols,encode_iid_symbols}"],
+     text="batch encode forms == per-symbol loop on ANY Encode implementor (recording stub), incl. stop at first error")
+kani("ans_io::batch_decode_forms", ["C01"], fns=["stream/mod.rs::Decode::{decode_symbols,try_decode_symbols,decode_iid_symbols}", "stream/mod.rs::{DecodeSymbols,TryDecodeSymbols,DecodeIidSymbols}::next"],
+     text="batch decode iterators == per-symbol loop on ANY Decode implementor")
+kani("ans_io::batch_reverse_ans_u8_u16_p3", ["C01"], kind="bounded", bound="2 symbols, P=3, (u8,u16)", timeout=1200,
+     fns=[ST + "encode_symbols_reverse", ST + "try_encode_symbols_reverse", ST + "encode_iid_symbols_reverse"])
 
 # ---------------- Verus unit: ANS (stack.rs)
 _ANS_IMPL_ENC = "Encode<PRECISION>\n    for AnsCoder<Word, State, Backend>"
@@ -121,10 +120,61 @@ verus_unit(
 lemma("lemmas_ans.rs", ["C01", "C04", "C12"])
 
 # =====================================================================================
-# C17  Word sources and sinks honour their contracts  (+ C20 Cursor invariant)
+# Range coder (src/stream/queue.rs)
 # =====================================================================================
-prop("C17", explanation="each provided backend operation against the ghost stack/queue contract: one operation at a time "
-     "from every reachable (buffer, pos) with buffers of <= 4 symbolic words; buffers of any length: Verus unit on the extracted Cursor text")
+QE = "queue.rs::<RangeEncoder as Encode>::encode_symbol"
+QD = "queue.rs::<RangeDecoder as Decode>::decode_symbol"
+Q = "queue.rs::"
+for p, tier in (("p8", "quick"), ("p3", "quick"), ("p5", "thorough"), ("p1", "thorough")):
+    kani(f"range::u8_u16_{p}::enc_step_refines", ["C06"], tier=tier, fns=[QE], timeout=1200,
+         text="under abs: L' = L + scale*cum, R' = scale*p, renormalise by one word iff R' < 2^(sb-wb); representation invariant kept; any held-back situation (n_inv<=3)")
+    kani(f"range::u8_u16_{p}::enc_potential", ["C12"], tier=tier, fns=[QE], timeout=1200,
+         text="|bulk|+n_inv grows by <= 1 per symbol; range*p*2^k <= range'*2^P*(2^k+1)")
+    kani(f"range::u8_u16_{p}::enc_impossible", ["C09"], tier=tier, fns=[QE],
+         text="symbol outside the model => Err(ImpossibleSymbol); bulk, state, situation unchanged")
+    kani(f"range::u8_u16_{p}::seal_suffix", ["C11", "C02", "C18", "C12"], tier=tier, fns=[Q + "RangeEncoder::seal", Q + "RangeEncoder::into_compressed", Q + "RangeEncoder::num_seal_words", Q + "RangeEncoder::num_words"],
+         text="for every encoder state (all situations, n_inv<=2) and EVERY continuation of the sealed words: L <= X < L+R; 1..2 seal words; num_words == words written")
+    kani(f"range::u8_u16_{p}::empty_message", ["C02", "C18"], tier=tier, fns=[Q + "RangeEncoder::seal", Q + "RangeEncoder::is_empty"], text="empty message seals to no words")
+    kani(f"range::u8_u16_{p}::enc_pos", ["C07"], tier=tier, fns=[Q + "<RangeEncoder as Pos>::pos"], text="pos() == (backend pos + n_inv, state) for any n_inv")
+    kani(f"range::u8_u16_{p}::dec_seek", ["C07"], tier=tier, fns=[Q + "<RangeDecoder as Seek>::seek", Q + "RangeDecoder::read_point"],
+         text="seek((pos,state)): window of sb/wb words at pos zero padded, state installed; pos beyond data refused")
+    kani(f"range::u8_u16_{p}::dec_new", ["C02", "C18", "C10"], tier=tier, fns=[Q + "RangeDecoder::with_backend", Q + "RangeDecoder::read_point", Q + "RangeDecoder::maybe_exhausted"],
+         text="decoder starts from the first sb/wb words zero padded and the full interval; exhaustion reporting at the start")
+for p, tier, tmo in (("p1", "quick", 600), ("p3", "quick", 900), ("p5", "thorough", 2400), ("p8", "thorough", 3600)):
+    kani(f"range::u8_u16_{p}::dec_step", ["C10", "C02", "C06", "C20"], tier=tier, fns=[QD, Q + "RangeDecoder::from_raw_parts"], timeout=tmo,
+         text="from every accepted (lower,range,point): Ok(symbol whose interval holds the quantile) or InvalidData iff quantile >= 2^P; invariants point-lower<range, range>=2^(sb-wb) re-established; mirrors the encoder's interval step")
+for m in ("u8_u32_p8", "u16_u32_p12", "u32_u64_p24"):
+    for h in ("enc_impossible", "empty_message", "enc_pos", "dec_seek", "dec_new"):
+        props = {"enc_impossible": ["C09"], "empty_message": ["C02", "C18"], "enc_pos": ["C07"], "dec_seek": ["C07"], "dec_new": ["C02", "C18", "C10"]}[h]
+        kani(f"range::{m}::{h}", props, tier="quick" if m == "u32_u64_p24" else "thorough", fns=[Q + h])
+kani("range::u8_u32_p8::seal_suffix", ["C11"], fns=[Q + "RangeEncoder::seal"],
+     text="same contract at State = 4 Words (documented claim: concatenation with arbitrary further words)")
+kani("range::u16_u32_p12::seal_suffix", ["C11", "C02", "C18"], tier="thorough", fns=[Q + "RangeEncoder::seal"], timeout=1200)
+for h, tier, tmo in (("n1_u8_u16_p5", "quick", 300), ("n1_u8_u16_p8", "quick", 300), ("n2_u8_u16_p5", "quick", 600),
+                     ("n2_u8_u16_p8", "thorough", 1800), ("n3_u8_u16_p5", "thorough", 1800), ("n3_u8_u16_p3", "thorough", 1800)):
+    kani("range::msg::" + h, ["C02"], tier=tier, kind="bounded", bound=h.split("_")[0] + " symbols, (u8,u16)", timeout=tmo, fns=[QE, QD, Q + "RangeEncoder::seal", Q + "RangeDecoder::read_point"],
+         text="whole message through real encoder, seal, real decoder: symbols come back in order; maybe_exhausted at the end; <= n+2 words")
+
+# =====================================================================================
+# Chain coder (src/stream/chain.rs)
+# =====================================================================================
+CH = "chain.rs::"
+for p, tier in (("p5", "quick"), ("p8", "quick"), ("p3", "thorough")):
+    kani(f"chain::u8_u16_{p}::dec_step", ["C14", "C10", "C13", "C20"], tier=tier, fns=[CH + "<ChainCoder as Decode>::decode_symbol", CH + "ChainCoder::flush_remainders_head"], timeout=1200,
+         text="symbol = model(next P-bit chunk of the compressed side); new compressed side and the out-of-data condition depend on the compressed side only; remainders step r*p+(q-cum) with flush iff >= 2^(sb-P); head invariants kept; total")
+    kani(f"chain::u8_u16_{p}::dec_enc", ["C13"], tier=tier, fns=[CH + "<ChainCoder as Decode>::decode_symbol", CH + "<ChainCoder as Encode>::encode_symbol"], timeout=1200,
+         text="encode(decode(c,e),e) == c on heads and both backends")
+    kani(f"chain::u8_u16_{p}::enc_dec", ["C13", "C09", "C20"], tier=tier, fns=[CH + "<ChainCoder as Encode>::encode_symbol", CH + "ChainCoder::refill_remainders_head"], timeout=1200,
+         text="impossible symbol / missing remainders reported with the coder unchanged; decode(encode(c,sym)) == (sym,c)")
+kani("chain::route_remainders_u8_u16_p5", ["C13"], kind="bounded", bound="<= 4 data words, 2 symbols", timeout=1200,
+     fns=[CH + "ChainCoder::from_binary", CH + "ChainCoder::into_remainders", CH + "ChainCoder::from_remainders", CH + "ChainCoder::into_binary", CH + "ChainCoderHeads::new"],
+     text="from_binary -> decode 2 -> into_remainders -> from_remainders -> encode back -> into_binary == prefix ++ data")
+kani("chain::precision_change_u8_u16", ["C13"], fns=[CH + "ChainCoder::change_precision", CH + "ChainCoder::increase_precision_unchecked", CH + "ChainCoder::decrease_precision_unchecked"],
+     text="change_precision<5> then <3> from any P=3 state is the identity")
+
+# =====================================================================================
+# Backends (src/backends.rs)
+# =====================================================================================
 B = "backends.rs::"
 for h, fns, txt in [
     ("cursor_constructors", ["Cursor::new_at_pos", "Cursor::new_at_pos_mut", "Cursor::new_at_write_beginning", "Cursor::new_at_write_end", "Cursor::new_at_write_end_mut"], "new_at_pos(buf,pos) is Ok iff pos <= len; pos() reports it"),
@@ -141,22 +191,12 @@ for h, fns, txt in [
     kani("backends::" + h, ["C17", "C20"], fns=[B + f for f in fns], text=txt)
 kani("backends::smallvec_backend", ["C17"], kind="bounded", bound="SmallVec<[u8;2]> with <= 3 words", fns=[B + "SmallVec impls"])
 kani("backends::adapters", ["C17"], kind="bounded", bound="3-word iterator, 2 callback writes", fns=[B + "FallibleIteratorReadWords", B + "InfallibleCallbackWriteWords", B + "FallibleCallbackWriteWords"])
-claim("C17", "Every operation of Cursor / Reverse<Cursor> / Vec checked against the stack/queue contract from every (buffer,pos) "
-      "with <= 4 symbolic words (complete per operation: loop-free, full symbolic state); SmallVec and adapters bounded.",
-      "Kani bit-precise on the real impls incl. get_unchecked; buffers longer than 4 words rely on the Verus Cursor unit / genericity in the length",
-      "function contracts per backend operation (Kani)")
-NOT_APPLICABLE.pop("C17", None)
-
-prop("C20", explanation="per type with unsafe code: constructors establish the invariant, every safe method preserves it, the invariant implies each "
-     "unsafe precondition; Kani's automatic pointer/unsafe-precondition/overflow checks located in /repo/src are the obligations")
 kani("backends::cursor_buf_mut_then_read", ["C20"], fns=[B + "Cursor::buf_mut", B + "<Cursor as ReadWords<Stack>>::read"],
      text="safe sequence new_at_write_end(vec).buf_mut().truncate(k); stack read() must not index out of bounds")
 
 # =====================================================================================
-# C16  Bit-level stack and queue coders  (+ their guards for C08, their size queries for C18)
+# Bit-level coders (src/symbol/mod.rs, exp_golomb.rs), Huffman
 # =====================================================================================
-prop("C16", explanation="ghost bit sequence b[0..n], n <= 10 (crosses the u8 word boundary, reaches the full-word and fresh-word "
-     "representations); every operation checked against push/pop/enqueue/dequeue on the ghost sequence and against the LSB-first packing spec")
 S = "symbol/mod.rs::"
 kani("bits::stack_write_read", ["C16", "C18"], fns=[S + "StackCoder::write_bit", S + "StackCoder::read_bit", S + "SymbolCoder::len", S + "SymbolCoder::is_empty"],
      text="after any n<=10 writes: len()==n; write x; read == x; read == b[n-1] (None, sticky, on empty)")
@@ -168,11 +208,142 @@ kani("bits::queue_roundtrip", ["C16", "C18"], fns=[S + "QueueEncoder::write_bit"
      text="export == LSB-first packing zero padded; decoder yields the bits in order, then padding zeros, then None")
 kani("bits::stack_guard", ["C08"], fns=[S + "StackCoderGuard::new", S + "StackCoderGuard::drop"], text="guard view == export; after drop, write+export == uninspected twin")
 kani("bits::queue_guard", ["C08"], fns=[S + "QueueEncoderGuard::new", S + "QueueEncoderGuard::drop"], text="guard view == export; after drop, write+export == uninspected twin")
-kani("bits::exp_golomb_u8", ["C16"], tier="thorough", timeout=1200, fns=["symbol/exp_golomb.rs::ExpGolomb::{encode_symbol_prefix,encode_symbol_suffix,decode_symbol}"],
+kani("bits::exp_golomb_u8", ["C16"], tier="thorough", timeout=1800, fns=["symbol/exp_golomb.rs::ExpGolomb::{encode_symbol_prefix,encode_symbol_suffix,decode_symbol}"],
      text="for every u8 value incl. MAX: prefix bits == textbook codeword; queue and stack round trips return the value")
-kani("bits::exp_golomb_u16", ["C16"], tier="thorough", timeout=3000, fns=["symbol/exp_golomb.rs::ExpGolomb<u16>"], text="same for every u16 value")
-claim("C16", "Every bit-coder operation against the ghost bit sequence for all contents of <= 10 bits over u8 words (covers all "
-      "representations: empty, partial, exactly full, second word); export against the packing spec; Exp-Golomb for every u8/u16 value (thorough).",
-      "Kani bit-precise on the real code; word type u8 (the code is generic in Word: wider words rely on genericity / Verus unit); sequences longer than 10 bits by induction on the per-step contract",
-      "function contracts against a ghost sequence (Kani)")
-NOT_APPLICABLE.pop("C16", None)
+kani("bits::exp_golomb_u16", ["C16"], tier="thorough", timeout=3600, fns=["symbol/exp_golomb.rs::ExpGolomb<u16>"], text="same for every u16 value")
+HF = "symbol/huffman.rs::"
+for n, tier, tmo in (("n1", "quick", 300), ("n2", "quick", 600), ("n3", "quick", 900), ("n4", "thorough", 3600)):
+    kani("huffman::" + n, ["C15", "C20"], tier=tier, kind="bounded", bound=f"{n[1:]} symbols, u8 weights", timeout=tmo,
+         fns=[HF + "EncoderHuffmanTree::try_from_probabilities", HF + "DecoderHuffmanTree::try_from_probabilities", HF + "EncoderHuffmanTree::encode_symbol_suffix", HF + "DecoderHuffmanTree::decode_symbol", S + "EncoderCodebook::encode_symbol_prefix"],
+         text="lengths == reference merge with (weight,index) order; Kraft equality; minimal cost; prefix == reversed suffix; decode inverts; out-of-alphabet rejected; node indices in bounds")
+
+# =====================================================================================
+# Entropy models (src/stream/model/**)
+# =====================================================================================
+M = "model/"
+PANIC_UNIFORM = [r"assertion failed: range > 1", r"assertion failed: last_symbol <="]
+for m, tier in (("uniform_u8_p8", "quick"), ("uniform_u8_p5", "quick"), ("uniform_u16_p12", "thorough")):
+    kani(f"models::{m}::valid", ["C03", "C09", "C05", "C20"], tier=tier, fns=[M + "uniform.rs::UniformModel::{new,left_cumulative_and_probability,quantile_function}"],
+         text="for every valid range and EVERY usize symbol: None iff symbol >= range; intervals consecutive, non-empty, tile [0,2^P), none is 2^P; quantile_function == encoder view")
+    kani(f"models::{m}::table_small", ["C05"], tier=tier, kind="bounded", bound="range <= 4", fns=[M + "uniform.rs::UniformModel::symbol_table"])
+    kani(f"models::{m}::invalid", ["C19"], tier=tier, fns=[M + "uniform.rs::UniformModel::new"], allow=PANIC_UNIFORM,
+         text="range in {0,1} or > 2^P: new() panics, never returns a model")
+FT = M + "categorical.rs::accumulate_nonzero_probabilities"
+for pm, tier in (("table_u8_p8", "quick"), ("table_u8_p7", "quick")):
+    for v in ("len0_infer", "len1", "len1_infer", "len2", "len2_infer", "len3"):
+        kani(f"models::{pm}::{v}", ["C19", "C03", "C09", "C05", "C20"], tier=tier, kind="bounded", bound=v + " u8 entries (all values)",
+             fns=[FT, M + "categorical/contiguous.rs::ContiguousCategoricalEntropyModel::{from_nonzero_fixed_point_probabilities,left_cumulative_and_probability,quantile_function,symbol_table,as_view}", M + "categorical.rs::iter_extended_cdf"],
+             text="Ok <=> table valid (entries nonzero, >= 2 symbols, sum == 2^P or < 2^P with inference); Ok => model contract; table rows and view == encoder view")
+kani("models::lookup_contiguous_p4", ["C05", "C10", "C20"], kind="bounded", bound="<= 3 entries, P=4", timeout=1200, tier="thorough",
+     fns=[M + "categorical/lookup_contiguous.rs::ContiguousLookupDecoderModel::{from_nonzero_fixed_point_probabilities,quantile_function,as_contiguous_categorical,symbol_table}", M + "categorical/lookup_contiguous.rs::From<&ContiguousCategoricalEntropyModel>"])
+kani("models::lookup_contiguous_rejects_p4", ["C19"], kind="bounded", bound="<= 3 entries, P=4", timeout=1200, tier="thorough",
+     fns=[M + "categorical/lookup_contiguous.rs::ContiguousLookupDecoderModel::from_nonzero_fixed_point_probabilities"])
+kani("models::non_contiguous_p4", ["C03", "C05", "C19"], kind="bounded", bound="<= 3 entries, <= 4 symbols, P=4", timeout=1200, tier="thorough",
+     fns=[M + "categorical/non_contiguous.rs::NonContiguousCategoricalDecoderModel::{from_symbols_and_nonzero_fixed_point_probabilities,quantile_function}"])
+kani("models::fast_f32_n3_p8", ["C19", "C03", "C20"], kind="bounded", bound="3 f32 entries (all bit patterns)", timeout=1200,
+     fns=[M + "categorical.rs::fast_quantized_cdf", M + "categorical/contiguous.rs::ContiguousCategoricalEntropyModel::from_floating_point_probabilities_fast"],
+     text="Ok => model contract (tiling, nonzero, quantile search in bounds, no unreachable_unchecked) for NaN/inf/negative/denormal inputs too")
+kani("models::lazy_vs_eager_f32_n3_p8", ["C05"], kind="bounded", bound="3 non-negative f32 entries", timeout=1800, tier="thorough",
+     fns=[M + "categorical/lazy_contiguous.rs::LazyContiguousCategoricalEntropyModel::{from_floating_point_probabilities_fast,left_cumulative_and_probability,quantile_function}"])
+PANIC_QUANT = [r"assertion failed: support\.end\(\) > support\.start\(\)", r"This is a placeholder message; Kani doesn't support message formatted at runtime"]
+for h, tier in (("quantizer_new_i8_u8_p8", "quick"), ("quantizer_new_i16_u8_p8", "quick"), ("quantizer_new_i16_u8_p5", "quick"),
+                ("quantizer_new_u8_u16_p12", "thorough"), ("quantizer_new_i16_u16_p16", "thorough")):
+    kani("models::" + h, ["C19", "C03"], tier=tier, allow=PANIC_QUANT, fns=[M + "quantize.rs::LeakyQuantizer::new", M + "quantize.rs::slack", M + "quantize.rs::<LeakilyQuantizedDistribution as EncoderModel>::left_cumulative_and_probability"],
+         text="for ALL ranges of the symbol type: panic, or every symbol of the support owns the interval [s-min, ...) (zero CDF): no narrowing of the support size")
+kani("models::quantizer_encoder_view_i8_u8_p8", ["C03", "C09"], kind="bounded", bound="support -64..=63 (free_weight a power of two), any monotone CDF", timeout=900,
+     fns=[M + "quantize.rs::<LeakilyQuantizedDistribution as EncoderModel>::left_cumulative_and_probability"],
+     text="encoder view under ANY monotone CDF: consecutive non-empty intervals from 0 to 2^P; outside the support => None")
+kani("models::quantizer_symbol_table_i8_u8_p8", ["C05", "C20"], kind="bounded", bound="first two rows, support -64..=63, any monotone CDF", timeout=900,
+     fns=[M + "quantize.rs::LeakilyQuantizedDistributionIter::next"],
+     text="k-th symbol_table row == encoder view of the k-th symbol")
+
+# =====================================================================================
+# Properties: explanations and manifest claims
+# =====================================================================================
+prop("C01", explanation="pop(push(c,e),e) == c and inv preserved: per-step contract on the real AnsCoder::encode_symbol/decode_symbol "
+     "(Kani, complete at (u8,u16), every state/entry); export/import and batch forms; width-parametric Verus lemma lemma_pop_push + lemma_history "
+     "(all balanced LIFO histories, per-symbol precisions); lift to all widths through the extracted-text refinement obligations (owned by C06).")
+prop("C02", level="model_checking", explanation="decoder step contract (all states), seal contract (all states, all suffixes), empty message; whole messages bounded (1-3 symbols); "
+     "Verus lemma layer: nested, coupling, bridge (any number of held-back words)")
+prop("C03", level="model_checking", explanation="model contract (tiling, non-empty, no probability one, rejection outside support, quantile == encoder view) for every constructor output: "
+     "uniform complete over all ranges; fixed-point tables over all u8 tables of <= 3 entries; float tables 3 x f32 all bit patterns; quantiser encoder view under any monotone CDF stub")
+prop("C04", explanation="push(pop(c,e),e) == c per step (Kani) + lemma_push_pop/lemma_bits_back (Verus, all widths/lengths) + raw binary import/export for any words")
+prop("C05", level="model_checking", explanation="pairwise agreement of representations: symbol_table rows vs encoder view, view vs owner, lookup vs searched, non-contiguous vs contiguous, lazy vs eager")
+prop("C06", explanation="refinement of the real steps to the published algorithms written as independent spec functions: rANS push/pop (Kani (u8,u16) + decode at all widths; Verus all widths), "
+     "range-coder interval step incl. carry bookkeeping under the abstraction function (Kani (u8,u16)), export word order")
+prop("C07", explanation="pos/seek contracts of both coders and of the backends")
+prop("C08", explanation="guard contracts: view == what finishing would return; drop restores the coder (ANS all widths; bit coders observationally)")
+prop("C09", explanation="error-path contracts of every coder's encode_symbol and rejection contracts of the models")
+prop("C10", explanation="totality contracts of every decoder step from every constructible state")
+prop("C11", explanation="seal contract: for every encoder state the sealed words followed by any suffix stay in the interval")
+prop("C12", explanation="per-call word counts and integer potential inequalities per step; induction to the product form in Verus; A-log: log form is paper mathematics")
+prop("C13", explanation="chain coder step inverses from arbitrary heads (hook), precision change inverse, bounded export/import routes")
+prop("C14", explanation="functional contract: symbol and new compressed side are functions of the compressed side (and the model) only")
+prop("C15", level="model_checking", explanation="bounded: n <= 3 (quick) / 4 (thorough) symbols with symbolic u8 weights against a reference merge")
+prop("C16", explanation="ghost bit sequence b[0..n], n <= 10 over u8 words (all representations); export against the packing spec; Exp-Golomb all u8/u16 values (thorough)")
+prop("C17", explanation="each provided backend operation against the ghost stack/queue contract from every (buffer,pos) with <= 4 words")
+prop("C18", explanation="size/emptiness/exhaustion queries tied to the export at the same state")
+prop("C19", level="model_checking", explanation="constructors: Ok <=> valid input, over all small tables / all ranges of narrow types; clean panics permitted")
+prop("C20", explanation="per type with unsafe code: constructors establish the invariant, safe methods preserve it, invariant implies each unsafe precondition; "
+     "Kani's automatic pointer / unsafe-precondition / overflow checks located in /repo/src are the obligations")
+
+claim("C01", "Per-step contract decode(encode(c,e),e) == (sym,c) with invariant preservation for every state/entry at (u8,u16) on the real code; "
+      "export/import inverse and batch forms == loop; history/width generalisation by Verus lemmas.", K_NOTE, "function contracts (Kani) + Verus lemmas")
+claim("C02", "Decoder-step and seal contracts for all states at (u8,u16); whole messages bounded to <= 3 symbols; interval-arithmetic lemmas in Verus.",
+      K_NOTE + "; message-level induction over the coupling lemma is a Verus lemma over the math model, linked to the code by the C06 refinement harnesses", "function contracts (Kani) + Verus lemmas + bounded whole-message Kani")
+claim("C03", "Model contract for every constructor output within the stated bounds.", "Kani on the real model code; Vec-backed tables bounded to <= 3 entries; CDFs abstracted as arbitrary monotone functions (A-cdf)", "function contracts (Kani)")
+claim("C04", "Per-step contract encode(decode(c,e),e) == c for every invariant state; raw-binary import/export inverse for any words.", K_NOTE, "function contracts (Kani) + Verus lemmas")
+claim("C05", "Representations agree symbol by symbol / quantile by quantile within the stated bounds.", "Kani on the real code, bounded tables", "function contracts (Kani)")
+claim("C06", "Real encode/decode steps equal the published rANS / range-coding steps written as independent spec functions.", K_NOTE,
+      "refinement of real functions to a spec function (Kani miter, Verus on extracted text)")
+claim("C07", "pos/seek contracts for ANS coder, range encoder/decoder and backends.", K_NOTE, "function contracts (Kani)")
+claim("C08", "Guard contracts (view == export, drop restores) for ANS, and bit-level coders.", K_NOTE, "function contracts (Kani)")
+claim("C09", "Error paths leave the coder untouched and report the documented error; models reject every out-of-support symbol value.", K_NOTE, "function contracts (Kani, Verus)")
+claim("C10", "decode steps are total from every constructible state; symbol comes from the model.", K_NOTE, "function contracts (Kani, Verus)")
+claim("C11", "Seal contract with arbitrary suffix for every encoder state at State = 2 Words; State wider than 2 Words is a recorded finding.", K_NOTE, "function contract on seal (Kani)")
+claim("C12", "At most one word per symbol and the integer potential inequality per step (ANS and range coder).", K_NOTE + "; A-log: passing from the product inequality to the logarithmic statement is paper mathematics",
+      "function contracts (Kani) + Verus potential lemma")
+claim("C13", "Chain-coder decode/encode are mutually inverse from every head state; precision changes undo; export routes bounded.", K_NOTE + "; arbitrary heads through the cfg(constriction_verif) hook", "function contracts (Kani)")
+claim("C14", "Functional locality contract of ChainCoder::decode_symbol.", K_NOTE, "function contract (Kani)")
+claim("C15", "Bounded check of both Huffman trees against a reference merge (n <= 3 quick, 4 thorough).", "bounded in n; BinaryHeap executed, not specified; optimality for all n is Huffman's theorem (paper)", "bounded Kani harness with reference")
+claim("C16", "Every bit-coder operation against the ghost bit sequence for all contents of <= 10 bits over u8 words; Exp-Golomb for every u8/u16 value (thorough).",
+      "Kani bit-precise on the real code; word type u8 (code generic in Word)", "function contracts against a ghost sequence (Kani)")
+claim("C17", "Every operation of Cursor / Reverse<Cursor> / Vec against the stack/queue contract from every (buffer,pos) with <= 4 symbolic words; SmallVec and adapters bounded.",
+      "Kani bit-precise on the real impls incl. get_unchecked; longer buffers by genericity in the length", "function contracts per backend operation (Kani)")
+claim("C18", "Size/emptiness/exhaustion queries equal the length of the export at the same state (ANS all widths, range encoder all situations, bit coders).", K_NOTE + "; entropy/KL diagnostics not claimed (floating-point transcendental functions)", "function contracts (Kani)")
+claim("C19", "Constructors accept exactly the valid inputs within the stated bounds; clean panics permitted.", "bounded tables (<= 3 entries); LeakyQuantizer::new / UniformModel::new complete over narrow types", "function contracts (Kani)")
+claim("C20", "Unsafe preconditions (unchecked indexing, NonZero::new_unchecked, unreachable_unchecked) and overflow checks discharged on every harness path; Cursor::buf_mut is a recorded finding.",
+      "Kani's automatic checks; only code reached by the harnesses of C01-C19", "invariant-based safety contracts (Kani automatic obligations)")
+
+# ---------------- lemma layer (hand written Verus, width-parametric, no code from /repo)
+lemma("lemmas_range_interval.rs", ["C02", "C07", "C11"])
+lemma("lemmas_range_bridge.rs", ["C02", "C06"])
+lemma("lemmas_seal.rs", ["C11", "C02"])
+lemma("lemmas_chain.rs", ["C13"])
+kani("range::guard_u8_u16", ["C08", "C18"], timeout=900, fns=[Q + "EncoderGuard::{new,drop}", Q + "RangeEncoder::{seal,unseal,num_seal_words,num_words,get_compressed}"],
+     text="view == into_compressed() of a twin (all situations, n_inv<=2, pre-filled sink); drop restores bulk/state/situation")
+kani("models::float_view_uniform_u16_p12", ["C18"], fns=[M + "model.rs::EncoderModel::floating_point_probability"],
+     text="floating_point_probability * 2^P == probability exactly; 0 outside the support")
+
+# ---------------- Verus unit: range encoder sealing (queue.rs)
+_RE_IMPL = "impl<Word, State, Backend> RangeEncoder<Word, State, Backend>\nwhere\n    Word: BitArray + Into<State>,\n    State: BitArray + AsPrimitive<Word>,\n    Backend: WriteWords<Word>,\n{"
+verus_unit(
+    name="range_seal", template="range_seal_unit.rs.tmpl",
+    widths=["u8_u16", "u8_u32", "u8_u64", "u16_u32", "u16_u64", "u32_u64"],
+    slots={
+        "SEAL": dict(file="src/stream/queue.rs", anchor=_RE_IMPL, fn="seal", extra=[
+            (r"\.as_\(\);", ".s2w();", 2),
+            (r"for _ in 1\.\.num_inverted\.get\(\) \{", "for _i in 1..num_inverted\n    invariant 1 <= _i <= num_inverted || num_inverted == 0, slf.bulk@ == b0.push(first_word) + rep(consecutive_words, (_i - 1) as nat), slf.state == old(slf).state, slf.situation == old(slf).situation, sw == seal_words(slf.state, slf.situation)\n {", 1),
+        ]),
+        "NUM_SEAL_WORDS": dict(file="src/stream/queue.rs", anchor=_RE_IMPL, fn="num_seal_words", extra=[
+            (r"\.as_\(\);", ".s2w();", 2),
+        ]),
+    },
+    obligations={
+        "seal": dict(own=["C06", "C08", "C11", "C12", "C18"], dep=["C02"], kani_twin="range::u8_u16_p8::seal_suffix",
+                     text="ensures: bulk' == bulk ++ seal_words(state, situation) for any n_inv; state and situation untouched"),
+        "num_seal_words": dict(own=["C18", "C08"], dep=[], text="ensures: count == |seal_words(state, situation)|"),
+    },
+)
+kani("models::quantizer_reject_i16_u8_p8", ["C09"], fns=[M + "quantize.rs::<LeakilyQuantizedDistribution as EncoderModel>::left_cumulative_and_probability"],
+     text="Some iff min <= symbol <= max for every i16 symbol and every support of <= 256 symbols (probability type u8)")
